@@ -100,8 +100,10 @@ func c02Vars() []string {
 
 var c02vars = c02Vars()
 
+var c02IterVars = []string{"arr", "parr", "earr", "vals", "m", "mi", "em", "things", "nul"}
+
 func (p *c02) program(i int) (map[string]*gen.Template, bool) {
-	g := &gen.ProgGen{R: gen.Rng(p.seed, "c02", i), Hostile: i%3 != 2, Vars: c02vars}
+	g := &gen.ProgGen{R: gen.Rng(p.seed, "c02", i), Hostile: i%3 != 2, Vars: c02vars, IterVars: c02IterVars}
 	useTwig := i%2 == 1
 	if useTwig {
 		g.Filters = p.filters
